@@ -561,6 +561,26 @@ pub fn c03(c: &Collector, g: &mut Guard) {
     for cr in crashes {
         c.crash(format!("E1 macro worker {} ended abnormally ({}), partition {:?}", cr.child, cr.how, cr.last_part));
     }
+    // (e) long inputs
+    let longs = long_streams();
+    let crashes = fork_map(c, 16, Duration::from_secs(crate::explore::sweep_timeout_s()), |part, cc| {
+        let mut l = E1Local::new();
+        for (i, (_, text)) in longs.iter().enumerate() {
+            if i % 16 != part {
+                continue;
+            }
+            for utf8 in [true, false] {
+                c03_word(cc, text, utf8, &mut l, "E1.long");
+            }
+        }
+        cc.add_transitions(l.words);
+        cc.count("words", l.words);
+        cc.count("long_words", l.words);
+        cc.outcomes(&l.outcomes);
+    });
+    for cr in crashes {
+        c.crash(format!("E1 long worker {} ended abnormally ({}), partition {:?}", cr.child, cr.how, cr.last_part));
+    }
     // OSC payload family (events only; the Screen-level effect is C19)
     let payload_syms: Vec<&str> = vec!["a", ";", "\\", "]", " ", "\u{e9}", "\x01", "\n", "\x1ba", "\x1b["];
     let plen = if c.thorough() { 5 } else { 3 };
@@ -605,6 +625,7 @@ pub fn c03(c: &Collector, g: &mut Guard) {
     g.need(c, "family_words");
     g.need(c, "osc_words");
     g.need(c, "macro_words");
+    g.need(c, "long_words");
     let _ = word_hash;
 }
 
@@ -744,11 +765,33 @@ pub fn c19(c: &Collector, g: &mut Guard) {
             crate::judge::refine_all(c, "C19", "E1.osc-histories", t, local);
         },
     );
+    // long titles (and long everything else around them)
+    crate::explore::sweep(
+        c,
+        &hbase,
+        |_| {
+            let mut v = Vec::new();
+            for (name, text) in long_streams() {
+                if name.starts_with("osc") {
+                    v.push(Op::Feed(vec![text.clone()], true));
+                    v.push(Op::FeedBytes(vec![text.as_bytes().to_vec()], true));
+                    let b = text.as_bytes();
+                    v.push(Op::FeedBytes(b.chunks(7).map(|x| x.to_vec()).collect(), true));
+                }
+            }
+            v
+        },
+        |c, t, local| {
+            local.count("long_titles");
+            crate::judge::refine_all(c, "C19", "E1.osc-long", t, local);
+        },
+    );
     c.add_states(c.counter("payloads"));
     c.sample(json!({"input": esc("\x1b]0;a;\\]\x1b\\x"), "expected_title": "a;\\]", "expected_icon": "a;\\]", "grid": "only 'x' at (3,1)", "cursor": "(4,1)"}));
     c.sample(json!({"input": esc("\u{9d}2;\u{e9} \x1ba\u{9c}x"), "expected_title": esc("\u{e9} \x1ba"), "expected_icon": "I0 (unchanged)"}));
     g.need(c, "osc_feeds");
     g.need(c, "osc_histories");
+    g.need(c, "long_titles");
 }
 
 #[allow(clippy::too_many_arguments)]
@@ -1154,6 +1197,29 @@ pub fn c11(c: &Collector, g: &mut Guard) {
     for cr in crashes {
         c.crash(format!("E3 worker {} ended abnormally ({}), partition {:?}", cr.child, cr.how, cr.last_part));
     }
+    // long streams (ill-formed bytes expand to three-byte U+FFFD; buffers sized from the input would overflow)
+    let longb = long_byte_streams();
+    let crashes = fork_map(c, longb.len(), Duration::from_secs(crate::explore::sweep_timeout_s()), |part, cc| {
+        let mut l = E3Local::new();
+        let (_, bytes) = &longb[part];
+        for utf8 in [true, false] {
+            c11_case(cc, &[bytes.clone()], utf8, &mut l, "E3.long", "C11");
+            for k in [1usize, 7, 1000, 2048, 4096, 4097] {
+                // (the per-chunk check is quadratic in the number of chunks)
+                if k < bytes.len() && bytes.len() / k <= 1500 {
+                    let chunks: Vec<Vec<u8>> = bytes.chunks(k).map(|x| x.to_vec()).collect();
+                    c11_case(cc, &chunks, utf8, &mut l, "E3.long", "C11");
+                }
+            }
+        }
+        cc.add_transitions(l.n);
+        cc.count("cases", l.n);
+        cc.count("long_cases", l.n);
+        cc.outcomes(&l.outcomes);
+    });
+    for cr in crashes {
+        c.crash(format!("E3 long worker {} ended abnormally ({}), partition {:?}", cr.child, cr.how, cr.last_part));
+    }
     c.sample(json!({"bytes": "e2 9e | 9c", "utf8": true, "expected_after_chunk_0": [], "expected_after_chunk_1": ["draw(\\u{279c})"]}));
     c.sample(json!({"bytes": "41 ff 41", "utf8": true, "expected": ["draw(A\\u{fffd}A)"]}));
     c.sample(json!({"bytes": "e0 80", "utf8": true, "expected": ["draw(\\u{fffd}\\u{fffd})"]}));
@@ -1163,6 +1229,7 @@ pub fn c11(c: &Collector, g: &mut Guard) {
     g.need(c, "scalar_cases");
     g.need(c, "eightbit_cases");
     g.need(c, "mode_switch_cases");
+    g.need(c, "long_cases");
 }
 
 // =====================================================================  C02
@@ -1369,6 +1436,54 @@ pub fn macro_alphabet_ext() -> Vec<&'static str> {
     v
 }
 
+/// Long inputs: what a small-scope enumeration cannot reach by construction -- long
+/// parameter lists, long OSC strings, long digit runs, long runs of text. (name, text)
+pub fn long_streams() -> Vec<(String, String)> {
+    let mut v: Vec<(String, String)> = Vec::new();
+    for n in [16usize, 17, 18, 32, 33, 64, 65, 100, 256, 257, 1000] {
+        let list: Vec<String> = (1..=n).map(|i| format!("{}", i % 10)).collect();
+        for f in ['H', 'm', 'B', 'r', 'h', 'J', 'z'] {
+            v.push((format!("params{}{}", n, f), format!("\x1b[{}{}x", list.join(";"), f)));
+        }
+        let mut z = vec!["0"; n.saturating_sub(3)];
+        z.extend(["1", "4", "7"]);
+        v.push((format!("sgr-tail{}", n), format!("\x1b[{}mX", z.join(";"))));
+        let empties = ";".repeat(n);
+        v.push((format!("empty-params{}", n), format!("\x1b[{}3Hq", empties)));
+    }
+    v.push(("sgr-17".into(), "\x1b[0;38;2;255;128;0;48;2;0;0;64;1;3;4;5;7;9mX".into()));
+    for l in [255usize, 256, 1022, 1023, 1024, 1025, 2047, 2048, 4095, 4096, 4097, 10000] {
+        for (intro, term) in [("\x1b]", "\x07"), ("\u{9d}", "\u{9c}"), ("\x1b]", "\x1b\\")] {
+            v.push((format!("osc-ascii{}", l), format!("{}2;{}{}y", intro, "a".repeat(l), term)));
+        }
+        v.push((format!("osc-cjk{}", l), format!("\x1b]0;{}\x07y", "\u{65e5}".repeat(l / 3 + 1))));
+        v.push((format!("osc-semicolons{}", l), format!("\x1b]1;{}\x07y", "a;".repeat(l / 2))));
+    }
+    for l in [100usize, 1000, 5000] {
+        v.push((format!("digits{}", l), format!("\x1b[{};{}Hz", "7".repeat(l), "0".repeat(l))));
+        v.push((format!("text{}", l), "abcdefghij".repeat(l / 10)));
+        v.push((format!("wide-text{}", l), "\u{30a2}b".repeat(l / 10)));
+        v.push((format!("combining-text{}", l), "e\u{301}".repeat(l / 10)));
+        v.push((format!("csi-spaces{}", l), format!("\x1b[{}5C!", " ".repeat(l))));
+        v.push((format!("csi-controls{}", l), format!("\x1b[2{};3Hq", "\n".repeat(l.min(200)))));
+    }
+    v
+}
+
+/// Long byte streams with ill-formed UTF-8 (every ill-formed byte becomes a three-byte U+FFFD).
+pub fn long_byte_streams() -> Vec<(String, Vec<u8>)> {
+    let mut v = Vec::new();
+    for l in [1000usize, 1367, 4096, 4100, 6000, 10000] {
+        let pat: Vec<u8> = (0..l).map(|i| [0x41u8, 0xe9, 0x42, 0xff, 0x20, 0xc3, 0xa9, 0x80][i % 8]).collect();
+        v.push((format!("latin1-ish{}", l), pat));
+        v.push((format!("all-ff{}", l), vec![0xffu8; l]));
+        let mut t: Vec<u8> = "\u{65e5}\u{672c}".repeat(l / 6).into_bytes();
+        t.truncate(l.saturating_sub(1)); // ends inside a character
+        v.push((format!("cjk-truncated{}", l), t));
+    }
+    v
+}
+
 pub fn c02(c: &Collector, g: &mut Guard) {
     let a = alphabet_a();
     let start_small = {
@@ -1483,6 +1598,70 @@ pub fn c02(c: &Collector, g: &mut Guard) {
     for cr in crashes {
         c.crash(format!("C02 byte worker {} ended abnormally ({}), partition {:?}", cr.child, cr.how, cr.last_part));
     }
+    // (3b) long inputs: single feed vs fixed-size chunkings, on an 80x24 screen
+    let longs = long_streams();
+    let longb = long_byte_streams();
+    let crashes = fork_map(c, 16, Duration::from_secs(crate::explore::sweep_timeout_s()), |part, cc| {
+        let mut n = 0u64;
+        let mut outcomes = HashSet::new();
+        let mut run = |bytes: &[u8], utf8: bool, cc: &Collector| {
+            let single = screen_after_bytes(&start_big, &[bytes.to_vec()], utf8);
+            let base = single.as_ref().ok().map(snap_sans_nothing);
+            if let Some(b) = &base {
+                outcomes.insert(crate::snapshot::snap_key(b));
+            }
+            for k in [1usize, 2, 3, 7, 16, 64, 1000, 1024, 2048, 4095, 4096, 4097] {
+                if k >= bytes.len() {
+                    continue;
+                }
+                let chunks: Vec<Vec<u8>> = bytes.chunks(k).map(|x| x.to_vec()).collect();
+                n += 1;
+                let r = screen_after_bytes(&start_big, &chunks, utf8);
+                // the replay record keeps the chunk size, not the (large) chunk list
+                let op = Op::FeedBytes(if bytes.len() <= 600 { chunks } else { vec![bytes[..200].to_vec()] }, utf8);
+                c02_verdict(cc, &start_big, &[], op, &base, &single, r, &format!("long.k{}", k));
+            }
+            // one cut in the middle
+            let mid = bytes.len() / 2;
+            n += 1;
+            let r = screen_after_bytes(&start_big, &[bytes[..mid].to_vec(), bytes[mid..].to_vec()], utf8);
+            let op = Op::FeedBytes(if bytes.len() <= 600 { vec![bytes[..mid].to_vec(), bytes[mid..].to_vec()] } else { vec![bytes[..200].to_vec()] }, utf8);
+            c02_verdict(cc, &start_big, &[], op, &base, &single, r, "long.mid");
+        };
+        for (i, (_, text)) in longs.iter().enumerate() {
+            if i % 16 == part {
+                run(text.as_bytes(), true, cc);
+            }
+        }
+        for (i, (_, bytes)) in longb.iter().enumerate() {
+            if i % 16 == part {
+                run(bytes, true, cc);
+                run(bytes, false, cc);
+            }
+        }
+        // the char-level parser: whole vs one char at a time vs 100-char chunks
+        for (i, (_, text)) in longs.iter().enumerate() {
+            if i % 16 != part {
+                continue;
+            }
+            let single = screen_after_chars(&start_big, &[text.clone()], true);
+            let base = single.as_ref().ok().map(snap_sans_nothing);
+            let chars: Vec<char> = text.chars().collect();
+            for k in [1usize, 100] {
+                let chunks: Vec<String> = chars.chunks(k).map(|x| x.iter().collect()).collect();
+                n += 1;
+                let r = screen_after_chars(&start_big, &chunks, true);
+                let op = Op::Feed(if chars.len() <= 300 { chunks } else { vec![chars[..100].iter().collect()] }, true);
+                c02_verdict(cc, &start_big, &[], op, &base, &single, r, &format!("long.chars.k{}", k));
+            }
+        }
+        cc.add_transitions(n);
+        cc.count("long_stream_runs", n);
+        cc.outcomes(&outcomes);
+    });
+    for cr in crashes {
+        c.crash(format!("C02 long worker {} ended abnormally ({}), partition {:?}", cr.child, cr.how, cr.last_part));
+    }
     // (4) captured sessions
     c02_sessions(c);
     c.sample(json!({"stream": esc("\x1b[2;3Hy"), "partition": [esc("\x1b["), "2;3Hy"], "oracle": "snapshot(single feed) == snapshot(chunked)"}));
@@ -1493,6 +1672,7 @@ pub fn c02(c: &Collector, g: &mut Guard) {
     g.need(c, "cut_inside_sequence");
     g.need(c, "cut_inside_multibyte");
     g.need(c, "session_runs");
+    g.need(c, "long_stream_runs");
 }
 
 fn repo_dir() -> String {
